@@ -35,6 +35,8 @@ type LedgerSim struct {
 	OnCall    func(op string, id atree.SlabID) any
 }
 
+var ledgerIndexBase uint64
+
 var errInjected = errors.New("injected ledger fault")
 
 func NewLedgerSim() *LedgerSim {
@@ -116,7 +118,9 @@ func (l *LedgerSim) Retrieve(id atree.SlabID) ([]byte, bool, error) {
 func (l *LedgerSim) GenerateSlabID(address atree.Address) (atree.SlabID, error) {
 	l.Index[address]++
 	var idx atree.SlabIndex
-	binary.BigEndian.PutUint64(idx[:], l.Index[address])
+	// ledgerIndexBase (header field "index0"): slab indexes start above it, so that identifiers straddle byte boundaries
+	// (255 / 256, 65535 / 65536) within short histories
+	binary.BigEndian.PutUint64(idx[:], l.Index[address]+ledgerIndexBase)
 	return atree.NewSlabID(address, idx), nil
 }
 
